@@ -1032,4 +1032,141 @@ Proof.
   split; [exact D1|]. split; [exact D2|]. split; [exact L|]. split; [exact RR|apply (ac_K _ _ _ _ _ _ A)].
 Qed.
 
+(* ------------------------------------------------------------------------------------------ *)
+(* Part 4: set_stream and Request::writeable (C09, the output gate)                             *)
+(* ------------------------------------------------------------------------------------------ *)
+
+(* the last stream of a role has no successor: it is the role's final stream *)
+Lemma last_is_final role : next_input_stream role (last_opt role) = None.
+Proof.
+  destruct (role_cases role) as [->|[->|[->|[E Hn]]]]; try (vm_compute; reflexivity). apply Hn.
+Qed.
+
+Lemma pinv_stream_ok p : pinv p -> stream_ok p.
+Proof. intros [_ (_ & _ & _ & _ & _ & H)]. exact H. Qed.
+
+(* Parser::set_stream, when accepted: a new epoch.  What the handler will receive from now on is the not yet
+   consumed content of the selected stream; replies and all other streams are untouched *)
+Lemma set_stream_step p s p1 : pinv p -> set_stream p s = SetOk p1 ->
+  pinv p1 /\ sreq p1 = sreq p /\ stream p1 = s /\ output_buffer p1 = output_buffer p /\
+  is_record_boundary p1 = is_record_boundary p /\
+  (forall u, R maxc (abs p1) u = R maxc (abs p) u) /\
+  (forall sg u, F sg (abs p1) u = F sg (abs p) u) /\
+  (forall e, err_at (abs p) e -> err_at (abs p1) e) /\
+  (optN_eqb s (stream p) = true -> p1 = p) /\
+  (optN_eqb s (stream p) = false -> stream_buffer p1 = [] /\ forall u, K (abs p1) u = F s (abs p) u).
+Proof.
+  intros [HRI Hinv] E. pose proof (set_stream_refines p s HRI) as SR. rewrite E in SR.
+  destruct (aset_stream (abs p) s) as [a1| |] eqn:EA; try contradiction. destruct SR as [R1 A1]. subst a1.
+  assert (SAME : optN_eqb s (stream p) = true -> p1 = p).
+  { intros Heq. unfold set_stream in E.
+    destruct (match s with
+              | Some x => match cmp_input_streams (r_role (sreq p)) x (stream p) with
+                          | None => None | Some Lt => Some false | Some _ => Some true end
+              | None => Some true end) as [[|]|]; try discriminate E.
+    rewrite Heq in E. injection E as <-. reflexivity. }
+  pose proof (fun u => set_stream_law maxc (abs p) s (abs p1) u Hinv EA) as SL.
+  destruct (SL []) as (_ & _ & _ & _ & I1).
+  destruct (optN_eqb s (stream p)) eqn:Heq.
+  - specialize (SAME eq_refl). subst p1. apply optN_eqb_eq in Heq.
+    split; [split; assumption|]. split; [reflexivity|]. split; [symmetry; exact Heq|]. split; [reflexivity|].
+    split; [reflexivity|]. split; [reflexivity|]. split; [reflexivity|]. split; [intros e H; exact H|].
+    split; [reflexivity|discriminate].
+  - destruct (SL []) as (_ & S2 & _). destruct (S2 Heq) as (T1 & T2 & T3 & T4 & T5 & _).
+    assert (Hpp : a_prem (abs p1) = a_prem (abs p) /\ a_pad (abs p1) = a_pad (abs p)).
+    { unfold aset_stream in EA. destruct (accepts (r_role (a_req (abs p))) (a_stream (abs p)) s) as [[|]|]; try discriminate EA.
+      change (a_stream (abs p)) with (stream p) in EA. rewrite Heq in EA.
+      apply (f_equal (fun x => match x with ASetOk a => (a_prem a, a_pad a) | _ => (0, 0) end)) in EA.
+      cbv beta iota in EA. cbn [a_prem a_pad] in EA. injection EA as H1 H2. split; symmetry; assumption. }
+    split; [split; assumption|]. split; [exact T3|]. split; [exact T1|]. split; [exact T4|].
+    split; [unfold is_record_boundary; destruct Hpp as [H1 H2]; cbn [abs a_prem a_pad] in H1, H2; rewrite H1, H2; reflexivity|].
+    split; [intros u; apply (SL u)|]. split; [intros sg u; apply (SL u)|].
+    split.
+    { intros e (H1 & H2 & H3 & H4). destruct Hpp as [P1 P2]. unfold err_at, ri. rewrite P1, P2, T5, T3. repeat split; assumption. }
+    split; [discriminate|]. intros _. split; [exact T2|]. intros u. destruct (SL u) as (_ & S3 & _). apply (S3 Heq).
+Qed.
+
+Lemma set_stream_same p : stream_ok p -> set_stream p (stream p) = SetOk p.
+Proof.
+  unfold stream_ok, set_stream. destruct (stream p) as [x|] eqn:Es.
+  - intros Hx. unfold cmp_input_streams. rewrite Hx. cbn [negb orb]. rewrite N.eqb_refl.
+    cbn [optN_eqb]. rewrite N.eqb_refl. reflexivity.
+  - intros _. reflexivity.
+Qed.
+
+Lemma poll_input_none_buffered fuel r w : stream_buffer (rsp r) <> [] ->
+  poll_input maxc fuel None r w = (PReady (inl (0, [])), r, w).
+Proof. intros H. unfold poll_input. destruct (stream_buffer (rsp r)); [contradiction|reflexivity]. Qed.
+
+Lemma await_input_none_buffered fuel r w : (0 < fuel)%nat -> stream_buffer (rsp r) <> [] ->
+  await_input maxc fuel None r w = Ok (inl (0, []), r) w.
+Proof. intros Hf H. destruct fuel as [|f]; [lia|]. cbn [await_input]. rewrite (poll_input_none_buffered _ r w H). reflexivity. Qed.
+
+(* item 3 (C09): Request::writeable.  It returns Ok with the output gate open (writeable = true, the active
+   stream = the role's final stream) -- except in one situation: the gate is closed, the final stream is already
+   active and its stream buffer is non-empty; then writeable() returns Ok at once WITHOUT opening the gate
+   (poll_input(None) answers Ok(0) from the non-empty buffer before reaching set_writeable) *)
+Theorem do_writeable_gate r w e r' w' :
+  pinv (rsp r) -> bytes_ok (remaining w) -> do_writeable maxc r w = Ok (e, r') w' ->
+  (rwriteable r = true -> e = None /\ r' = r /\ w' = w) /\
+  (rwriteable r = false ->
+     let last := last_opt (r_role (sreq (rsp r))) in
+     exists p1, set_stream (rsp r) last = SetOk p1 /\
+       stream (rsp r') = last /\ sreq (rsp r') = sreq (rsp r) /\ is_final_stream r' = true /\
+       acct [] (mkR p1 false (rlock r)) w [] r' w' /\
+       match e with
+       | None => rwriteable r' = true \/
+                 (rwriteable r' = false /\ stream (rsp r) = last /\ stream_buffer (rsp r) <> [] /\ r' = r /\ w' = w)
+       | Some k => rwriteable r' = false
+       end).
+Proof.
+  intros Hinv Hrem E. unfold do_writeable in E. destruct (rwriteable r) eqn:Ewr.
+  { injection E as <- <- <-. split; [intros _; repeat split|discriminate]. }
+  split; [discriminate|]. intros _. cbv zeta.
+  change (match rev (role_input_streams (r_role (sreq (rsp r)))) with x :: _ => Some x | [] => None end)
+    with (last_opt (r_role (sreq (rsp r)))) in E.
+  set (last := last_opt (r_role (sreq (rsp r)))) in *.
+  destruct (set_stream (rsp r) last) as [p1| |] eqn:ES; try discriminate E.
+  exists p1. split; [reflexivity|].
+  destruct (set_stream_step _ _ _ Hinv ES) as (I1 & Q1 & S1 & _ & _ & _ & _ & _ & SAME & DIFF).
+  set (r1 := mkR p1 false (rlock r)) in *.
+  assert (Hfin1 : is_final_stream r1 = true).
+  { unfold is_final_stream. cbn [r1 rsp]. rewrite Q1, S1. unfold last. rewrite last_is_final. reflexivity. }
+  pose proof (await_input_reads (io_fuel w 0) None r1 w I1 Hrem) as AI.
+  destruct (await_input maxc (io_fuel w 0) None r1 w) as [[[[n b]|k] r2] w2|o w2] eqn:EA; [| |discriminate E].
+  - injection E as <- <- <-. cbn [ai_post] in AI. destruct AI as (dl & A & C & W).
+    cbn [pi_case] in C. destruct C as (-> & -> & d & C1 & C2).
+    split; [rewrite (ac_stream _ _ _ _ _ _ A); exact S1|]. split; [rewrite (ac_req _ _ _ _ _ _ A); exact Q1|].
+    split; [rewrite <- Hfin1; apply is_final_stream_eq; [apply (ac_req _ _ _ _ _ _ A)|apply (ac_stream _ _ _ _ _ _ A)]|].
+    split; [exact A|].
+    destruct (stream_buffer p1) as [|x sb] eqn:Esb.
+    + left. rewrite W. unfold poll_parses. cbn [r1 rsp rwriteable is_inl]. rewrite Esb, Hfin1. reflexivity.
+    + right. destruct (optN_eqb last (stream (rsp r))) eqn:Heq.
+      * specialize (SAME eq_refl). subst p1.
+        assert (Er : r1 = r) by (subst r1; destruct r as [p0 wr lk]; cbn [rsp rwriteable rlock] in *; subst wr; reflexivity).
+        rewrite Er in EA. rewrite await_input_none_buffered in EA; [|rewrite io_fuel_remaining; lia|rewrite Esb; discriminate].
+        injection EA as _ <- <-. split; [exact Ewr|]. split; [symmetry; apply optN_eqb_eq; exact Heq|].
+        split; [rewrite Esb; discriminate|]. split; reflexivity.
+      * destruct (DIFF eq_refl) as [H _]. first [discriminate H | congruence].
+  - injection E as <- <- <-. cbn [ai_post] in AI. destruct AI as (dl & A & C & W).
+    split; [rewrite (ac_stream _ _ _ _ _ _ A); exact S1|]. split; [rewrite (ac_req _ _ _ _ _ _ A); exact Q1|].
+    split; [rewrite <- Hfin1; apply is_final_stream_eq; [apply (ac_req _ _ _ _ _ _ A)|apply (ac_stream _ _ _ _ _ _ A)]|].
+    assert (dl = []).
+    { cbn [pi_case] in C. destruct C as [(e0 & _ & _ & _ & C4 & _)|[(C1 & _)|(C1 & _)]]; [apply C4; reflexivity|exact C1|exact C1]. }
+    subst dl. split; [exact A|]. rewrite W. cbn [is_inl r1 rwriteable]. rewrite andb_false_r. reflexivity.
+Qed.
+
+(* the exception really occurs: in that state writeable() answers Ok and the gate stays closed *)
+Lemma do_writeable_stale r w : pinv (rsp r) -> rwriteable r = false ->
+  stream (rsp r) = last_opt (r_role (sreq (rsp r))) -> stream_buffer (rsp r) <> [] ->
+  do_writeable maxc r w = Ok (None, r) w.
+Proof.
+  intros Hinv Ewr Hs Hsb. unfold do_writeable. rewrite Ewr.
+  change (match rev (role_input_streams (r_role (sreq (rsp r)))) with x :: _ => Some x | [] => None end)
+    with (last_opt (r_role (sreq (rsp r)))).
+  rewrite <- Hs. rewrite (set_stream_same _ (pinv_stream_ok _ Hinv)).
+  assert (Er : mkR (rsp r) false (rlock r) = r) by (destruct r as [p0 wr lk]; cbn [rsp rwriteable rlock] in *; subst wr; reflexivity).
+  rewrite Er. rewrite await_input_none_buffered; [reflexivity|rewrite io_fuel_remaining; lia|exact Hsb].
+Qed.
+
 End Reads.
